@@ -67,6 +67,9 @@ CLAIMED["C08"] = ("All histories of depth 2 over a 10-class burst alphabet and o
                   "symbolic; blocks-to-follow / preamble counts from small pools), a monitor over the observer log: processing never fails, 'ended' only after an open 'started' "
                   "of the same kind with the right header type, idle + fresh stream id afterwards, A-F labelling, rx sequence numbers mod 256 with restart, raising observers, "
                   "two timeslots. The inductive one-step harness of the design was not built; histories beyond the depth are not claimed.", "6/C08")
+CLAIMED["C19"] = ("2-safety over histories g, f, g: for 36 codec entry points (CRC, FEC, PDU, burst incl. default-constructed, Hytera, Motorola) with ALL arguments symbolic, every "
+                  "ordered pair inside a family plus every g against the burst / CRC-CCITT / BPTC-decode entry points: same result (or same failure) for the same arguments, "
+                  "argument buffers unchanged, results are fresh objects. thorough: all ordered pairs and histories of length 3 inside the families.", "6/C19")
 NOT_YET = {}
 props = [json.loads(l) for l in open(os.path.join(V, "properties.jsonl"))]
 checks = []
